@@ -276,3 +276,109 @@ Proof.
   - eexists. split; [apply in_or_app; right; left; reflexivity|]. cbn. repeat split; try apply incl_refl. apply incl_appl, incl_refl.
   - exists z0. split; [apply in_or_app; right; right; exact H|]. repeat split; apply incl_refl.
 Qed.
+
+(* ---------------------------------------------------------------------------------------- *)
+(* zone construction along a call chain                                                       *)
+(* ---------------------------------------------------------------------------------------- *)
+Definition cdata (x : call) : zdata := snd (fst x).
+Definition ccaller (x : call) : caller := fst (fst x).
+Definition crecv (x : call) : recv := snd x.
+(* the calls (newest first) made since the last global context change, that change excluded *)
+Fixpoint same_ctx (l : list call) : list call :=
+  match l with [] => [] | x :: t => if is_change (crecv x) then [] else x :: same_ctx t end.
+(* the chain from the last global context change on *)
+Fixpoint from_barrier (l : list call) : list call :=
+  match l with [] => [] | x :: t => if is_change (crecv x) then x :: t else from_barrier t end.
+
+Definition not_root (x : call) : Prop := ccaller x <> CRoot.
+Definition global_caller_kind (x : call) : Prop :=
+  match ccaller x with CFunction _ _ => True | CMethod _ (OGlobal _) => True | _ => False end.
+Definition caller_id (c : caller) : N :=
+  match c with CFunction g _ => g | CMethod _ (OGlobal a) => a | _ => 0 end.
+
+(* the parent chain = the zones of the frames of the same global context, newest first *)
+Lemma build_parent : forall l, Forall not_root (same_ctx l) -> fz_par (build l) = map cdata (same_ctx l).
+Proof.
+  induction l as [|[[c d] r] t IH]; intros H; cbn [build same_ctx]; [reflexivity|].
+  unfold create_zone. cbn [fz_par crecv snd]. destruct (is_change r) eqn:E; [reflexivity|].
+  cbn [same_ctx crecv snd] in H. rewrite E in H. inversion H as [|? ? Hx Ht]; subst.
+  cbn [map cdata fst snd]. rewrite IH by assumption. destruct c; [exfalso; apply Hx; reflexivity|reflexivity|reflexivity].
+Qed.
+
+(* the global caller = the caller of the last context-changing call, with the chain of ITS context *)
+Lemma build_gc : forall l, Forall global_caller_kind l ->
+  fz_gc (build l) =
+  match from_barrier l with
+  | [] => None
+  | b :: t => Some (caller_id (ccaller b), false, cdata b :: map cdata (same_ctx t))
+  end.
+Proof.
+  induction l as [|[[c d] r] t IH]; intros H; cbn [build from_barrier]; [reflexivity|].
+  inversion H as [|? ? Hx Ht]; subst. unfold create_zone. cbn [fz_gc crecv snd].
+  assert (Hpar : fz_par (build t) = map cdata (same_ctx t)).
+  { apply build_parent. clear -Ht. induction t as [|x t IH]; cbn [same_ctx]; [constructor|].
+    inversion Ht as [|? ? Hx Ht']; subst. destruct (is_change (crecv x)); [constructor|].
+    constructor; [|apply IH, Ht']. unfold not_root, global_caller_kind in *. destruct (ccaller x); [contradiction|discriminate|discriminate]. }
+  unfold global_caller_kind in Hx. cbn [ccaller fst] in Hx.
+  destruct (is_change r) eqn:E.
+  - destruct c as [|g p|p [a| | |]]; try contradiction; cbn [ccaller cdata fst snd caller_id]; rewrite Hpar; reflexivity.
+  - destruct c as [|g p|p [a| | |]]; try contradiction; apply IH, Ht.
+Qed.
+
+(* callers that are not (under) a global object never give their callee a global caller *)
+Lemma build_gc_none : forall c d r t,
+  (c = CRoot \/ exists p, c = CMethod p ODirect \/ c = CMethod p OSubstateRef) ->
+  fz_gc (build ((c, d, r) :: t)) = None.
+Proof. intros c d r t [->|[p [->| ->]]]; reflexivity. Qed.
+(* a frame-owned caller passes on at most the frame-owned marker, which yields no badge *)
+Lemma build_gc_frame_owned : forall p d r t,
+  local_implicit (to_azone (build ((CMethod p OFrameOwned, d, r) :: t))) = [(PKG_RES, p)].
+Proof.
+  intros p d r t. cbn [build]. unfold create_zone, to_azone, local_implicit. cbn [az_pkg az_gc fz_pkg fz_gc caller_pkg].
+  destruct (fz_gc (build t)); reflexivity.
+Qed.
+
+(* what is visible to the check of the newest call of a chain of global callers *)
+Theorem visible_of_chain : forall l, Forall global_caller_kind l ->
+  visible (to_azone (build l)) =
+  (match local_implicit (to_azone (build l)) with [] => [] | li => [{| z_proofs := []; z_vres := []; z_vnf := li |}] end)
+  ++ (match from_barrier l with [] => [] | b :: t => cdata b :: map cdata (same_ctx t) end)
+  ++ map cdata (same_ctx l).
+Proof.
+  intros l H. unfold visible. cbn [to_azone az_gc az_parent]. rewrite (build_gc l H).
+  assert (Hpar : fz_par (build l) = map cdata (same_ctx l)).
+  { apply build_parent. clear -H. induction l as [|x t IH]; cbn [same_ctx]; [constructor|].
+    inversion H as [|? ? Hx Ht]; subst. destruct (is_change (crecv x)); [constructor|].
+    constructor; [|apply IH, Ht]. unfold not_root, global_caller_kind in *. destruct (ccaller x); [contradiction|discriminate|discriminate]. }
+  rewrite Hpar. destruct (from_barrier l); reflexivity.
+Qed.
+Lemma local_implicit_of_chain : forall c d r t, global_caller_kind (c, d, r) -> Forall global_caller_kind t ->
+  local_implicit (to_azone (build ((c, d, r) :: t))) =
+  (match caller_pkg c with Some p => [(PKG_RES, p)] | None => [] end) ++
+  (match from_barrier ((c, d, r) :: t) with [] => [] | b :: _ => [(GC_RES, caller_id (ccaller b))] end).
+Proof.
+  intros c d r t Hc Ht. unfold local_implicit, to_azone. cbn [az_pkg az_gc].
+  rewrite (build_gc ((c, d, r) :: t)) by (constructor; assumption).
+  cbn [build]. unfold create_zone. cbn [fz_pkg].
+  destruct (from_barrier ((c, d, r) :: t)); reflexivity.
+Qed.
+
+(* barrier: a zone older than the context of the global caller is never visible.  `older` = the
+   calls before (older than) the second most recent global context change. *)
+Fixpoint drop_ctx (l : list call) : list call :=      (* drop the newest context including its barrier call *)
+  match l with [] => [] | x :: t => if is_change (crecv x) then t else drop_ctx t end.
+Lemma same_ctx_incl : forall l x, In x (same_ctx l) -> In x l.
+Proof. induction l as [|y t IH]; cbn [same_ctx]; intros x H; [destruct H|]. destruct (is_change (crecv y)); [destruct H|]. destruct H as [->|H]; [now left|right; apply IH, H]. Qed.
+Theorem barrier : forall l z, Forall global_caller_kind l -> In z (visible (to_azone (build l))) ->
+  (z_proofs z = [] /\ z_vres z = []) (* the local implicit badges *)
+  \/ exists x, cdata x = z /\
+       (In x (same_ctx l) \/ (exists t, from_barrier l = x :: t) \/ (exists b t, from_barrier l = b :: t /\ In x (same_ctx t))).
+Proof.
+  intros l z H Hin. rewrite (visible_of_chain l H) in Hin. apply in_app_or in Hin. destruct Hin as [Hin|Hin].
+  - left. destruct (local_implicit (to_azone (build l))); [destruct Hin|]. destruct Hin as [<-|[]]. split; reflexivity.
+  - right. apply in_app_or in Hin. destruct Hin as [Hin|Hin].
+    + destruct (from_barrier l) as [|b t] eqn:E; [destruct Hin|]. destruct Hin as [<-|Hin].
+      * exists b. split; [reflexivity|]. right. left. eauto.
+      * apply in_map_iff in Hin. destruct Hin as [x [<- Hx]]. exists x. split; [reflexivity|]. right. right. eauto.
+    + apply in_map_iff in Hin. destruct Hin as [x [<- Hx]]. exists x. split; [reflexivity|]. now left.
+Qed.
